@@ -77,6 +77,9 @@ def _gen_auth_adapter(rng):
             "client_secret": rng.choice(["s3cr3t", "other", "s:e c%r&t="])}
 
 
+MIXIN_METHODS = [{"name": "m0", "components": None}, {"name": "m_cA", "components": ["cA"]},
+                 {"name": "m_cB", "components": ["cB"]}, {"name": "m_cE", "components": ["cE"]},
+                 {"name": "mx_cA", "components": ["absent", "cA"]}, {"name": "mx_cB", "components": ["absent", "cB"]}]
 _POOL = []      # adapter specs with a pool key generated so far in this run (reset by generate)
 
 
@@ -321,9 +324,15 @@ def generate(rng, tier):
                     methods.append({"name": "m_" + c, "components": [c]})
                     if rng.random() < 0.3:
                         methods.append({"name": "mx_" + c, "components": ["absent", c]})
+                if rng.random() < 0.35:
+                    # the wrappers live in ONE mixin class of the application; the final caller classes only differ in
+                    # the documented _HTTP_PREFIX_MAP hook (the service reached directly, through a gateway, ...)
+                    op["mixin"] = True
+                    methods = [dict(mm) for mm in MIXIN_METHODS]
                 op["prefix_map"] = pm
                 op["methods"] = methods
-                g.methods = {m["name"] for m in methods}
+                g.methods = {m["name"] for m in methods
+                             if m["components"] is None or sum(1 for c in m["components"] if c in pm) == 1}
             pn.dependents += 1
             nodes.append(g)
             ops.append(op)
@@ -415,6 +424,7 @@ class World:
         self.log = log
         self.model = HttpModel()
         self.objs = {}          # nid -> real object
+        self.mixin_cls = None
         self.kept_objects = {}  # (purpose, slot, type[, thread]) -> the caller's long-lived object
         self.classes = hw.make_adapter_classes()
         self.adapter_pool = {}
@@ -565,6 +575,15 @@ class World:
             method.__qualname__ = name
             method.__code__ = method.__code__.replace(co_name=name)
             return mh.method_http(None, comps)(method)
+        if op.get("mixin"):
+            if self.mixin_cls is None:
+                mns = {"_HTTP_PREFIX_MAP": {}, "__doc__": "the application's wrappers, shared by its caller classes"}
+                for mm in op["methods"]:
+                    mns[mm["name"]] = mk(mm["name"], mm["components"])
+                self.mixin_cls = self.sut("class(MCallerHttp) mixin", type, "SimWrappers", (mh.MCallerHttp,), mns)
+                self.stats["mixin_classes"] = 1
+            self.stats["mixin_callers"] = self.stats.get("mixin_callers", 0) + 1
+            return self.sut("class(mixin)", type, f"SimCaller{op['node']}", (self.mixin_cls,), ns)
         for mm in op["methods"]:
             ns[mm["name"]] = mk(mm["name"], mm["components"])
         return self.sut("class(MCallerHttp)", type, f"SimCaller{op['node']}", (mh.MCallerHttp,), ns)
